@@ -82,6 +82,11 @@ def systematic(tier):
             out.append({'check': ID, 'virtual': {'length': n, 'wrapped': wrapped, 'have': [0, 1, 100]},
                         'config': {'stream_kind': 'file', 'threshold': None, 'chunks': [400], 'open_polls': 1,
                                    'poll_each_chunk': False}})
+            # the same on a non-blocking, non-seekable stream: an empty poll (None) with nearly all of the
+            # content outstanding is an underrun while the stream is open
+            out.append({'check': ID, 'virtual': {'length': n, 'wrapped': wrapped, 'have': [0, 1, 100]},
+                        'config': {'stream_kind': 'pipe', 'threshold': 8192, 'chunks': [3, 400], 'open_polls': 2,
+                                   'poll_each_chunk': True}})
     # the same with tens of MiB of the content present: the cut falls far behind the first internal read,
     # wherever an implementation splits a large read into pieces (16, 32, 64 MiB)
     M = 1 << 20
